@@ -86,7 +86,7 @@ def run(facts, rep, tier, ctx):
             continue
         desc = o["key"].split("|")[2]
         op = desc.split(":")[0]
-        if op in want and any(("'%s" % g) in desc for g in want[op][1]):
+        if op in want and (any(("'%s" % g) in desc for g in want[op][1]) or desc.endswith(" present")):
             cnt += 1
             rep.ob(want[op][0], o["fn"], desc, o["ok"],
                    o["detail"] if o["ok"] else o["detail"] + " — this is an orphan-maker / type-changer", o["loc"])
@@ -124,7 +124,7 @@ def run(facts, rep, tier, ctx):
                 continue
             desc = o["key"].split("|")[2]
             op = desc.split(":")[0]
-            if op in want and any(("'%s" % g) in desc for g in want[op][1]):
+            if op in want and (any(("'%s" % g) in desc for g in want[op][1]) or desc.endswith(" present")):
                 rep.ob("A/" + want[op][0], o["fn"], desc, o["ok"], o["detail"], o["loc"])
     # R03.3 publication; R03.6 the guards above hold *when the mutation happens*: check and mutation of the in-memory
     # backends share one critical section (C16's R16.1 / R16.5 / R16.6) — a guard evaluated under an earlier lock is stale
@@ -152,12 +152,16 @@ def run(facts, rep, tier, ctx):
         # children through it, so a live child missing from the listing is orphaned by the next removal
         c09.listing_rules(facts, rep, ws, rule="R03.5l")
         c09.relative_join_rules(facts, rep, ws, rule="R03.5j")
+        # the union's guards are evaluated on what the resolver reports: it consults the path's deletion marker first, always
+        # (a remembered "no markers yet" is wrong for a second overlay over the same layers)
+        c09.resolver_rules(facts, rep, ws, "R03.5r")
         if wa.present():
             A = c10._Prefixed(rep, "A")
             c09.table_u(facts, A, wa, rule="R03.5", only=("remove_dir", "create_dir", "create_file", "remove_file", "append_file"))
             c10.marker_rules(facts, A, wa, prefix="R03.5m", only=("R10.1", "R10.3", "R10.5"))
             c09.listing_rules(facts, A, wa, rule="R03.5l")
             c09.relative_join_rules(facts, A, wa, rule="R03.5j")
+            c09.resolver_rules(facts, A, wa, "R03.5r")
     except ImportError:
         rep.note("overlay rules (C09) not available yet")
     # R03.8 on disk the tree is well-formed because the OS keeps it so — as long as the observers describe what the OS means: the
